@@ -12,6 +12,10 @@ import Driver.Util
     resp <TAB> cwdhex <TAB> plugins
       plugins : "-" | ;-separated  <outhex>|<file,file,...|->   file = <namehex>:<iphex>:<contenthex>
       output  : err <tag>  |  ok <abs-path-hex>=<contenthex>,...   (sorted by path)
+
+    resp <TAB> cwdhex <TAB> plugins <TAB> fs         (sent when some out is a .jar / .zip archive)
+      fs      : "-" | ;-separated <abs-path-hex>:<d|f>    what os.Stat says before the run
+      output  : as above; an archive is  <abs-path-hex>=@<entryhex>~<contenthex>+...  (entries sorted)
 -/
 namespace Driver.C17
 open BufModel.Path BufModel.Generate Driver
@@ -85,6 +89,25 @@ def handle : List String → String
         if objs.isEmpty then "ok -" else
         "ok " ++ ",".intercalate (objs.map fun (p, c) => enc p ++ "=" ++ enc c)
     | _, _ => "bad-op"
+  | ["resp", cwd, plugins, fs] =>
+    let parseStat (s : String) : Option (Str × Bool) :=
+      match s.splitOn ":" with
+      | [p, k] => (hexDecode p).map fun p => (s2l p, k = "d")
+      | _ => none
+    match hexDecode cwd, (parseList plugins ";").mapM parsePlugin, (parseList fs ";").mapM parseStat with
+    | some cwd, some ps, some fs =>
+      match runResponsesA fs (s2l cwd) ps with
+      | .error e => "err " ++ e.tag
+      | .ok bs =>
+        let showObj : Obj → String × String
+          | .file p c => (l2s p, enc c)
+          | .archive p es =>
+            let es := sortPairs (es.map fun (k, c) => (l2s k, c))
+            (l2s p, "@" ++ "+".intercalate (es.map fun (k, c) => enc k ++ "~" ++ enc c))
+        let objs := sortPairs ((flushedA bs).map showObj)
+        if objs.isEmpty then "ok -" else
+        "ok " ++ ",".intercalate (objs.map fun (p, c) => enc p ++ "=" ++ c)
+    | _, _, _ => "bad-op"
   | _ => "bad-op"
 
 def run : IO Unit := runLines handle
